@@ -838,7 +838,11 @@ pub fn run_case_with(case: &Case, tweak: impl FnOnce(&mut World)) -> Trace {
             "panic".to_string()
         };
         let loc = crate::LAST_PANIC_LOC.with(|l| l.borrow().clone());
-        w.trace.panic = Some(format!("{msg} @ {loc}"));
+        if msg.contains("HARNESS-WATCHDOG") {
+            w.trace.watchdog = true;
+        } else {
+            w.trace.panic = Some(format!("{msg} @ {loc}"));
+        }
     }
     let mut trace = std::mem::take(&mut w.trace);
     trace.events = std::mem::take(&mut *w.log.borrow_mut());
@@ -1053,6 +1057,24 @@ fn do_step(w: &mut World, tr: &Tr, conn: &mut Connection<'_, '_, SimIo>, at: (us
             t.faults.push(Fault { at_call, eof: *eof });
         }
         Step::Eof => tr.borrow_mut().eof = true,
+        Step::Burn { n } => {
+            let mut done = 0u32;
+            for _ in 0..*n {
+                if conn.can_publish(QoS::AtLeastOnce) {
+                    break;
+                }
+                let p = Publication::bytes("b", &[]).qos(QoS::AtLeastOnce);
+                let mut ctl = RunCtl::new(tr);
+                let out = exec::run(conn.publish(p), &mut ctl);
+                match out {
+                    Outcome::Done(Err(minimq::PubError::Session(
+                        minimq::Error::NotReady | minimq::Error::Resource(minimq::ResourceError::InflightExhausted),
+                    ))) => done += 1,
+                    _ => break,
+                }
+            }
+            w.ev(Event::Burn { n: done });
+        }
         Step::Advance { ms } => {
             clock::advance(*ms as u64 * clock::TICKS_PER_MS);
             tr.borrow_mut().release_due();
